@@ -230,9 +230,16 @@ func (p *vPair) shutdown() {
 // received messages through the channel when `count` have arrived.
 func vSender(c *GoBackNConn, msgs [][]byte, errs chan error) {
 	for _, m := range msgs {
-		if err := c.Send(m); err != nil {
+		// the application owns its buffer again once Send has returned: it
+		// reuses it for the next message (here: overwrites it)
+		buf := make([]byte, len(m))
+		copy(buf, m)
+		if err := c.Send(buf); err != nil {
 			errs <- err
 			return
+		}
+		for i := range buf {
+			buf[i] ^= 0xff
 		}
 	}
 	errs <- nil
